@@ -85,6 +85,22 @@ def scan_module(repo: Repo, mod: ModuleInfo):
                 tg = child.targets[0] if isinstance(child, ast.Assign) else child.target
                 if isinstance(tg, ast.Name):
                     sc = f"={tg.id}"            # the value of a module constant
+            elif scope == "<module>" and isinstance(child, (ast.For, ast.While, ast.If, ast.With, ast.Try, ast.Expr, ast.AugAssign)):
+                # module-level code that fills a module-level table (`for code, name in errno.errorcode.items():
+                # TABLE[code] = ...`, `TABLE.update(...)`): what it reads is part of that table's value
+                filled = set()
+                for x in ast.walk(child):
+                    if isinstance(x, ast.Subscript) and isinstance(x.ctx, ast.Store) and isinstance(x.value, ast.Name) \
+                            and x.value.id in mod.constants:
+                        filled.add(x.value.id)
+                    if isinstance(x, ast.Call) and isinstance(x.func, ast.Attribute) and isinstance(x.func.value, ast.Name) \
+                            and x.func.value.id in mod.constants and x.func.attr in ("update", "append", "extend", "add", "setdefault",
+                                                                                     "insert"):
+                        filled.add(x.func.value.id)
+                    if isinstance(x, ast.AugAssign) and isinstance(x.target, ast.Name) and x.target.id in mod.constants:
+                        filled.add(x.target.id)
+                if len(filled) == 1:
+                    sc = f"={filled.pop()}"
             if isinstance(child, (ast.FunctionDef, ast.AsyncFunctionDef)):
                 sc = f"{scope}.{child.name}" if scope != "<module>" else child.name
             elif isinstance(child, ast.ClassDef):
@@ -161,6 +177,10 @@ def _unit_of(mod: ModuleInfo, scope: str) -> str:
     return f"{mod.name}:{parts[0]}"
 
 
+ATTRS_USED: dict = {}       # node -> attribute names written in it
+CLASS_METHODS: dict = {}    # class node -> {ordinary method name: node}
+
+
 def reference_graph(repo: Repo):
     """node -> nodes it mentions.  Nodes: `mod:function`, `mod:Class` (-> its methods), `mod:Class.method`, `mod:CONSTANT`."""
     g = {}
@@ -183,8 +203,15 @@ def reference_graph(repo: Repo):
     for mod in repo.modules.values():
         for name, fn in mod.functions.items():
             g[f"{mod.name}:{name}"] = refs(mod, fn)
+            ATTRS_USED[f"{mod.name}:{name}"] = {n.attr for n in ast.walk(fn) if isinstance(n, ast.Attribute)}
         for cname, ci in mod.classes.items():
-            members = {f"{mod.name}:{cname}.{m}" for m in ci.methods}
+            # a class reaches its special methods (run implicitly: construction, str(), comparison ...); an ordinary method is
+            # reached when some reached code also mentions its name as an attribute (decoder_reach)
+            members = {f"{mod.name}:{cname}.{m}" for m in ci.methods if m.startswith("__") and m.endswith("__")}
+            CLASS_METHODS[f"{mod.name}:{cname}"] = {m: f"{mod.name}:{cname}.{m}" for m in ci.methods
+                                                    if not (m.startswith("__") and m.endswith("__"))}
+            for m, fn_ in ci.methods.items():
+                ATTRS_USED[f"{mod.name}:{cname}.{m}"] = {n.attr for n in ast.walk(fn_) if isinstance(n, ast.Attribute)}
             body_refs = set()
             for st in ci.node.body:
                 if not isinstance(st, (ast.FunctionDef, ast.AsyncFunctionDef)):
@@ -265,11 +292,20 @@ def decoder_reach(repo: Repo):
             seen = set()
             todo = list(start)
             while todo:
-                cur = todo.pop()
-                if cur in seen:
-                    continue
-                seen.add(cur)
-                todo.extend(g.get(cur, ()))
+                while todo:
+                    cur = todo.pop()
+                    if cur in seen:
+                        continue
+                    seen.add(cur)
+                    todo.extend(g.get(cur, ()))
+                # ordinary methods of the reached classes whose name some reached code uses as an attribute (`x.describe(...)`)
+                used = set()
+                for nd in seen:
+                    used |= ATTRS_USED.get(nd, set())
+                for nd in list(seen):
+                    for m, mnode in CLASS_METHODS.get(nd, {}).items():
+                        if m in used and mnode not in seen:
+                            todo.append(mnode)
             out.setdefault(e.key, set()).update(seen)
             FAMILY_OF[e.key] = f"pykdebugparser.trace_handlers.{fam}"
     return out, g
